@@ -1267,6 +1267,15 @@ def r02_14(ctx: Ctx):
     return obs
 
 
+def r02_15(ctx: Ctx):
+    """R02.15 a recorded generation is not edited in place: no store / remove / insert through a local alias of
+    `self._history[...]` or of `current_population` (the last recorded generation) - the record would show other individuals
+    than the ones that were registered."""
+    from .common import foreign_history_writes
+
+    return foreign_history_writes(ctx, "R02.15", "the genomes / fitness values of a generation change after it was recorded", foreign=False)
+
+
 RULES = [
     ("R02.1", r02_1, 8),
     ("R02.2", r02_2, 2),
@@ -1282,4 +1291,5 @@ RULES = [
     ("R02.12", r02_12, 1),
     ("R02.13", r02_13, 1),
     ("R02.14", r02_14, 1),
+    ("R02.15", r02_15, 1),
 ]
